@@ -185,7 +185,9 @@ def run_processes(ctx):
     ref_hs, ref = outs[0]
     for hs, o in outs:
         for i in range(len(battery)):
-            r = o["results"][str(i)]
+            r = o["results"].get(str(i))
+            if r is None:
+                continue
             if r.get("arg_history_ok") is False:
                 ctx.extra["case"] = {"battery_case": battery[i], "hashseed": hs, "what": "a document object rendered with other arguments before answers differently from a fresh one"}
                 raise Violation(f"case {i}: a document object that was rendered with other lib_prefix / include_version before renders differently from a fresh one")
@@ -199,7 +201,9 @@ def run_processes(ctx):
             raise Violation(f"case {i} rendered twice in one process (PYTHONHASHSEED={hs}) gave different results")
     for hs, o in outs[1:]:
         for i in range(len(battery)):
-            a, b = ref["results"][str(i)], o["results"][str(i)]
+            a, b = ref["results"].get(str(i)), o["results"].get(str(i))
+            if a is None or b is None:
+                continue
             if a != b:
                 diff = [k for k in a if a[k] != b.get(k)]
                 ctx.extra["case"] = {"battery_case": battery[i], "hashseeds": [ref_hs, hs], "differs_in": diff, "a": {k: a[k] for k in diff}, "b": {k: b[k] for k in diff}}
